@@ -81,16 +81,17 @@ def exhaustive_cases(tier):
 
 
 def hypotheses(ctx, suite, docs):
-    """the decidable hypotheses of the structural theorems (Coherent, IntervalOK) evaluated on the generated charts by the
-    compiled Lean definitions; a generated chart outside them is reported as a broken tie (the theorems say nothing about it)"""
+    """the decidable hypothesis of the structural theorems - the document is well formed (WFDoc) - evaluated on the generated
+    charts by the compiled Lean definitions, together with Coherent and IntervalOK (theorems for well-formed documents,
+    evaluated all the same as a cross-check); a generated chart outside them is reported as a broken tie"""
     lines = [case_line("tables", d, []) for d in docs]
     out = []
     for part in chunks(lines, 500): out += ctx.driver_lines("coherent", part, timeout=1800)
-    st = dict(charts=len(docs), coherent=sum(1 for x in out if "coh=1" in x), interval_ok=sum(1 for x in out if "ival=1" in x),
+    st = dict(charts=len(docs), wellformed_docs=sum(1 for x in out if "wfdoc=1" in x), coherent=sum(1 for x in out if "coh=1" in x), interval_ok=sum(1 for x in out if "ival=1" in x),
               plain_transitions=sum(int(x.split("plain=")[1].split("/")[0]) for x in out if "plain=" in x),
               transitions=sum(int(x.split("plain=")[1].split("/")[1]) for x in out if "plain=" in x))
     for d, x in zip(docs, out):
-        if ("coh=1" not in x or "ival=1" not in x) and not any(p.endswith("hypotheses.txt") for p, _ in ctx.violations):
+        if ("coh=1" not in x or "ival=1" not in x or "wfdoc=1" not in x) and not any(p.endswith("hypotheses.txt") for p, _ in ctx.violations):
             ctx.violation("hypotheses", suite, [case_line("tables", d, [])], found_input=False,
                           detail="a generated (valid) chart is outside the hypotheses Coherent / IntervalOK of the structural theorems (%s): they say nothing about it\nchart: %s" % (x, charts.sexpr(d)))
     ctx.add_suite(suite, **st)
